@@ -558,7 +558,14 @@ func (o *OracleC14) Judge(w *World, b *BlockCtx, p *ProbeResult) {
 			}
 			// ... and at most what its own price gives for what left the escrow: a refund (closed
 			// remainder) is coin that was not sold, so it reduces the proceeds at least at the lowest price
-			if len(groups) == 1 {
+			// (only for pool trades: other transaction types may credit the maker on their own account -
+			// a Send to the maker whose fee conversion also fills the maker's order, for example)
+			isTrade := false
+			switch m.Data.(type) {
+			case transaction.SellSwapPoolDataV260, transaction.BuySwapPoolDataV260, transaction.SellAllSwapPoolDataV260:
+				isTrade = true
+			}
+			if len(groups) == 1 && isTrade {
 				most := big.NewInt(int64(len(g)) + 1)
 				var minNum, minDen *big.Int // lowest buy/sell among closed orders
 				closed := 0
